@@ -636,6 +636,8 @@ def build_tape(name, seed, d):
     """Returns dict(tape=path, start=address tap2sna must stop at, plan=C12 plan or None, machine, seed, ...)."""
     if name.startswith('dw-'):
         return build_dawdle(name, seed, d)
+    if name.startswith('st-'):
+        return build_stack(name, seed, d)
     if name in ('k48', 'k48clear', 'k128'):
         if name == 'k48':
             cfg = dict(c12.DEF48, length=256, stack='end+2')
@@ -661,6 +663,87 @@ def build_tape(name, seed, d):
 OPT_DEFAULT = dict(accelerator='auto', dec_a=3, pause=1, fast_load=1, cmio=0, python=0, polarity=0, first_edge=0)
 OPT_ALTS = dict(accelerator=['none', 'rom', 'speedlock', 'alkatraz,rom'], dec_a=[0, 1, 2], pause=[0], fast_load=[0], cmio=[1], python=[1],
                 polarity=[1], first_edge=[1000])
+# --------------------------------------------------------------------------- stack tapes
+# bin2tap's BASIC loader and code block (the machine-code loader below), then one ordinary headerless block
+# that the loader reads with LD-BYTES to a place chosen relative to the machine stack.  ST_SP is the stack
+# pointer on entry to LD-BYTES ($0556): the CALL's return address lies at ST_SP / ST_SP+1, the ROM pushes
+# $053F (SA/LD-RET) at ST_SP-2 / ST_SP-1 before it reads anything, and its calls of LD-EDGE-2 (return address
+# $05CD at ST_SP-4) and, from there, LD-EDGE-1 ($05E6 at ST_SP-6) use ST_SP-6 .. ST_SP-3 while the bytes come in.  A block that covers ST_SP-2 / ST_SP-1 therefore replaces the pushed word
+# and LD-BYTES returns into what was loaded - the classic "load over the stack" autostart trick.
+ST_ORG = 0x8000
+ST_SP = 0x9000
+ST_VIA = 0x803F             # where RET lands when only the high byte of the pushed $053F is replaced (by $80)
+ST_DONE = 0x8054            # stop address; every word of the block that can be popped holds it
+ST_LEN = 16
+# name -> address of the first byte of the block relative to ST_SP
+ST_POS = {
+    'below': -32,           # nowhere near the stack
+    'to_sp-7': -6 - ST_LEN,     # last byte just below the two slots LD-BYTES' own calls use
+    'to_sp-5': -4 - ST_LEN,     # last byte at SP-5: covers the lower slot
+    'to_sp-3': -2 - ST_LEN,     # last byte at SP-3: covers both slots, ends below the pushed $053F
+    'to_sp-2': -1 - ST_LEN,     # last byte at SP-2: replaces the low byte of the pushed word ($0554: POP AF / RET)
+    'to_sp-1': -ST_LEN,         # last byte at SP-1: replaces the pushed word
+    'over': -8,                 # covers LD-BYTES' whole frame, the caller's return address and beyond
+    'from_sp-2': -2,            # first byte at SP-2
+    'from_sp-1': -1,            # first byte at SP-1: replaces the high byte of the pushed word only
+    'from_sp': 0,               # first byte at SP: the caller's return address and beyond, not the pushed word
+}
+ST_ALTS = dict(fast_load=[0], python=[1], accelerator=['none'])
+
+
+def stack_names():
+    return ['st-' + p for p in ST_POS]
+
+
+def stack_payload(pos, seed):
+    a0 = ST_SP + ST_POS[pos]
+    out = []
+    for a in range(a0, a0 + ST_LEN):
+        if a in (ST_SP - 2, ST_SP, ST_SP + 2):
+            out.append(ST_DONE & 255)
+        elif a in (ST_SP - 1, ST_SP + 1, ST_SP + 3):
+            out.append(ST_DONE >> 8)
+        else:
+            out.append(c12.tag(a, seed + 3))
+    return a0, bytes(out)
+
+
+def stack_program(a0):
+    p = [0x31, (ST_SP + 4) & 255, (ST_SP + 4) >> 8]             # 8000 LD SP,ST_SP+4
+    p += [0x21, ST_DONE & 255, ST_DONE >> 8, 0xE5]              # 8003 LD HL,DONE / PUSH HL   (the word above the return address)
+    p += [0xDD, 0x21, a0 & 255, a0 >> 8]                        # 8007 LD IX,a0
+    p += [0x11, ST_LEN, 0x00, 0x3E, 0xFF, 0x37]                 # 800B LD DE,len / LD A,$FF / SCF
+    p += [0xCD, 0x56, 0x05]                                     # 8011 CALL $0556             (SP = ST_SP on entry)
+    p += [0xC3, ST_DONE & 255, ST_DONE >> 8]                    # 8014 JP DONE
+    p += [0] * (ST_VIA - ST_ORG - len(p))
+    p += [0xC3, ST_DONE & 255, ST_DONE >> 8]                    # 803F JP DONE
+    p += [0] * (ST_DONE - ST_ORG - len(p))
+    p += [0] * 4                                                # 8054 DONE
+    return bytes(p)
+
+
+def build_stack(name, seed, d):
+    pos = name[3:]
+    a0, payload = stack_payload(pos, seed)
+    prog = stack_program(a0)
+    binf = tools.write_file(name + '.bin', prog, d)
+    tap = os.path.join(d, name + '.tap')
+    r = tools.run_tool('bin2tap', ['-o', ST_ORG, '-c', ST_ORG - 1, '-s', ST_ORG, binf, tap])
+    if r.rc:
+        raise RuntimeError('bin2tap failed for the stack tape: {}'.format(r))
+    data = bytes([0xFF]) + payload
+    par = 0
+    for b in data:
+        par ^= b
+    data += bytes([par])
+    tape = tools.write_file(name + '-full.tap', tools.read_file(tap) + bytes((len(data) & 255, len(data) >> 8)) + data, d)
+    # ST_SP-6 .. ST_SP-3 is where the ROM's own CALLs of LD-EDGE-2 / LD-EDGE-1 put their return addresses after a byte
+    # stored there has been read: stack residue on a real machine, i.e. scratch state that fast loading may change
+    idx = [i for i in range(ST_LEN) if not ST_SP - 6 <= a0 + i <= ST_SP - 3]
+    return dict(tape=tape, start=ST_DONE, plan=None, machine='48', seed=seed, stackpos=pos,
+                regions=[('headerless block', a0 - 16384, payload, idx), ('loader program', ST_ORG - 16384, prog, None)])
+
+
 # dawdle tapes: python x fast-load x accelerator x cmio.  pause=0 is outside "any tape that loads" (a loader
 # that is not listening when the next block begins only loads from a tape that waits for it), and nothing on
 # these tapes depends on accelerate-dec-a, polarity or first-edge beyond what the other tapes show
@@ -773,13 +856,15 @@ def full_product():
 def tape_plan(tier, seed=0):
     """[(tape name, deviation bound)]"""
     if tier == 'quick':
-        return [(t, 2) for t in ('k48', 'k48clear', 'turbo', 'k128')] + [(t, 2) for t in dawdle_names(tier, seed)]
-    return [('turbo', 8), ('k48', 3), ('k48clear', 2), ('k128', 2)] + [(t, 4) for t in dawdle_names(tier, seed)]
+        return [(t, 2) for t in ('k48', 'k48clear', 'turbo', 'k128')] + [(t, 2) for t in dawdle_names(tier, seed)] + [(t, 2) for t in stack_names()]
+    return [('turbo', 8), ('k48', 3), ('k48clear', 2), ('k128', 2)] + [(t, 4) for t in dawdle_names(tier, seed)] + [(t, 3) for t in stack_names()]
 
 
 def tape_configs(d, tname=''):
     if tname.startswith('dw-'):
         return [o for k, o in core.deviations(OPT_DEFAULT, DW_ALTS, d)]
+    if tname.startswith('st-'):
+        return [o for k, o in core.deviations(OPT_DEFAULT, ST_ALTS, d)]
     if d >= len(OPT_DEFAULT):
         return [o for k, o in sorted(full_product(), key=lambda x: x[0])]
     return [o for k, o in core.deviations(OPT_DEFAULT, OPT_ALTS, d)]
@@ -847,6 +932,8 @@ def run_item(tname, ref_o, others, seed, stats=None, check_ref=True):
         if stats is not None:
             stats.transitions += 1
             stats.counters['tape_' + tname.split('-')[0]] += 1
+            if 'stackpos' in t:
+                stats.counters['st_block_' + t['stackpos']] += 1
             if 'dawdle' in t:
                 pre, post, k = t['dawdle']
                 stats.counters['dw_wait_{}_after_{}'.format(pre, post)] += 1
@@ -929,19 +1016,25 @@ def run(tier, seed):
              'accelerate-dec-a 0..3, pause, fast-load, cmio, python, polarity, first-edge {{0,1000}}; dawdle tapes (bin2tap loader + program that '
              'waits k frames in a delay loop, loads a 16-byte headerless ROM-timed block with CALL $0556 - not the last block on the tape - and runs 3.5 '
              'more frames): wait k in {} frames (block + gap last {} frames) x interrupts enabled/disabled during the wait x enabled/disabled '
-             'after the load, each under {} over python, fast-load, accelerator {{auto,none}}, cmio.  states = distinct final (PC, counter, T, '
+             'after the load, each under {} over python, fast-load, accelerator {{auto,none}}, cmio; stack tapes (bin2tap loader + machine-code '
+             'loader that reads a 16-byte headerless block with LD-BYTES, SP = S on entry): first byte of the block at S+n for n in {} (below the '
+             'stack; last byte at S-7, S-5, S-3, S-2, S-1; over the whole frame; first byte at S-2, S-1, S), each under {} over fast-load, python, '
+             'accelerator {{auto,none}}.  states = distinct final (PC, counter, T, '
              'edge index) per row / distinct final snapshots; non-trivial = loop case in which the accelerator fired for at least one counter value, '
              'every DEC A case, every tape load'.format(
                  len(ACCELERATORS), '{k*loop_time+e: k 0..3, e -1,0,1}, far; EAR phase = register bit, or tape polarity for the loops without one' if tier == 'quick' else
                  'every value -1..2*loop_time+1, {3*loop_time+e}, far; EAR register bit x tape polarity',
-                 [t for t, d in tape_plan(tier) if not t.startswith('dw-')], 'deviations d <= 2 from the defaults' if tier == 'quick' else
+                 [t for t, d in tape_plan(tier) if not t.startswith(('dw-', 'st-'))], 'deviations d <= 2 from the defaults' if tier == 'quick' else
                  'full product on turbo, deviations d <= 3 on k48, d <= 2 on k48clear and k128',
-                 dawdle_waits(tier, seed), dawdle_block_frames(seed), 'option deviations d <= 2' if tier == 'quick' else 'the full option product'),
+                 dawdle_waits(tier, seed), dawdle_block_frames(seed), 'option deviations d <= 2' if tier == 'quick' else 'the full option product',
+                 sorted(ST_POS.values()), 'option deviations d <= 2' if tier == 'quick' else 'all 8 option combinations'),
         exhaustive=True,
         bound='loop level: complete product (finite); tape level: ' + ('option deviations d <= 2 on 4 tapes' if tier == 'quick' else
                                                                          'full option product (1280 configurations) on the turbo tape, d <= 3 on k48, d <= 2 on k48clear and k128') +
               '; {} dawdle tapes (complete product wait x interrupts during x interrupts after) x '.format(len(dawdle_names(tier, seed))) +
-              ('option deviations d <= 2 over 4 options' if tier == 'quick' else 'all 16 combinations of 4 options'),
+              ('option deviations d <= 2 over 4 options' if tier == 'quick' else 'all 16 combinations of 4 options') +
+              '; {} stack tapes (every listed block position) x '.format(len(ST_POS)) +
+              ('option deviations d <= 2 over 3 options' if tier == 'quick' else 'all 8 combinations of 3 options'),
         assumptions=[
             'loops are entered at their first instruction only, with the exit paths (wild-card bytes, RET targets) leading to the stop address - the phase real loaders are in',
             'every loop-level run has a horizon of {} T-states (LoadTracer timeout) and a 20 s watchdog'.format(HORIZON_T),
@@ -949,12 +1042,15 @@ def run(tier, seed):
             'IN r,(C) is traced at loop level (tap2sna does this only with in-flags=4), otherwise the activision row could never fire',
             'dawdle tapes are not run with pause=0: a loader that is not listening when the next block begins only loads from a tape that waits for it '
             '(outside "any tape that loads"); accelerate-dec-a, polarity and first-edge are not varied on them',
+            'stack tapes: the four bytes at S-6..S-3 (S = SP on entry to LD-BYTES) are exempt from the loaded-bytes comparison: the ROM\'s own CALLs of LD-EDGE-2 and LD-EDGE-1 '
+            'put return addresses there after a byte stored there has been read, so on a real machine they hold stack residue (scratch state); every other '
+            'byte of the block, including those over the pushed $053F and the caller\'s return address, must be what is on the tape',
         ],
         required_guards=['acc_' + n for n in sorted(ACCELERATORS)] + ['dec_a_jr', 'dec_a_jp', 'dec_a_interrupt_inside_loop'] +
                         ['tape_k48', 'tape_k48clear', 'tape_turbo', 'tape_k128', 'opt_accelerator', 'opt_dec_a', 'opt_pause', 'opt_fast_load', 'opt_cmio',
                          'opt_python', 'opt_polarity', 'opt_first_edge', 'tape_dw', 'dw_wait_ei_after_ei', 'dw_wait_ei_after_di', 'dw_wait_di_after_ei',
                          'dw_wait_di_after_di', 'dw_fast_load_clock_jump_forwards', 'dw_fast_load_clock_jump_backwards_within_a_frame',
-                         'dw_fast_load_clock_jump_backwards_beyond_a_frame'],
+                         'dw_fast_load_clock_jump_backwards_beyond_a_frame', 'tape_st'] + ['st_block_' + p for p in ST_POS],
     )
     return stats, meta
 
